@@ -22,6 +22,7 @@ Matches(a, e) ==
   /\ e.obs.sane /\ e.res = a.res
   /\ e.obs.text = o.text /\ e.obs.types = o.types /\ e.obs.bnd = o.bnd /\ e.obs.ntags = o.ntags
   /\ e.obs.tags = o.tags /\ e.obs.scores = o.scores /\ e.obs.tokens = o.tokens
+  /\ e.obs.wtok = o.wtok /\ e.obs.wpart = o.wpart
 
 \* abstract state taken from an observation (used only to re-synchronise after a rejection)
 Resync(e, plink) == IF e.obs.sane /\ Len(e.obs.text) >= 1
